@@ -9,6 +9,7 @@ import (
 	"time"
 
 	"github.com/influxdata/influxdb/models"
+	"github.com/influxdata/influxdb/pkg/verifhook"
 	"github.com/influxdata/influxdb/tsdb"
 	"github.com/influxdata/influxql"
 	"go.uber.org/zap"
@@ -736,8 +737,14 @@ func (cl *CacheLoader) Load(cache *Cache) error {
 				if err != nil {
 					n := r.Count()
 					cl.Logger.Info("File corrupt", zap.Error(err), zap.String("path", f.Name()), zap.Int64("pos", n))
+					if verifhook.Enabled {
+						verifhook.Point("wal.recover.truncating", f.Name(), n)
+					}
 					if err := f.Truncate(n); err != nil {
 						return err
+					}
+					if verifhook.Enabled {
+						verifhook.Point("wal.recover.truncated", f.Name(), n)
 					}
 					break
 				}
